@@ -21,6 +21,16 @@ claim("C01", RM + "reference-model oracle at the API boundary (Trace.parse_trace
       "Trusted: hv/ref/raw.py (naive model), Python json, the regime predicate (>= 1 complete event per file, integer stream/correlation args). ijson backends unreachable (not installed).",
       "DESIGN.md §5 C01")
 
+claim("C02", RM + "reference-model oracle on Trace.get_trace(rank)['index_correlation'] (per-row recomputation of the link from raw events) + icontract post-condition on transform_correlation_to_index (mutual, same id, sentinels)",
+      "Exploration: hundreds/thousands of simulated traces with launches, kernels and sync partners dropped at random; every row's link is compared with the reference. Held on what was observed.",
+      "Trusted: hv/ref/raw.py::link_oracle (documented side rule), hv/wf.py regime predicate, G-sim generator.", "DESIGN.md §5 C02")
+claim("C03", RM + "reference-model oracle over CallStackGraph.get_nodes() of both builders and the parent/depth columns of both CallGraph classes; tie-class histogram of the inputs gates inconclusive; K1 attribution test for the recorded finding",
+      "Exploration (+ exhaustive enumeration of all laminar families of <= 3 spans over 0..2 in quick, <= 4 over 0..3 in thorough): parents, depths, children lists and zero-duration placement are recomputed pairwise from the spans.",
+      "Trusted: the pairwise innermost-enclosing oracle in hv/props/c03.py; K1 (zero-duration event where one span ends and another begins) is a recorded known finding, recognised only through the attribution test.", "DESIGN.md §5 C03")
+claim("C08", RM + "edge logger wrapped around CPGraph._add_edge_helper + offline checker of the finished graph (own acyclicity check, expected node set, host call-stack chain, edge type discipline, weight rule) against a reference computed from raw events and G-sim ground truth",
+      "Exploration: hundreds/thousands of critical-path graphs built by the real analysis on simulated causally consistent traces over many windows and both launch-edge settings; every edge of every graph is judged.",
+      "Trusted: hv/ref/cp.py, hv/ref/load.py, hv/wf.py (regime), G-sim ground truth for synchronisation relations. Event-sync / stream-wait edges are not produced in this environment (DESIGN O1).", "DESIGN.md §5 C08")
+
 NOT_YET = "check not built yet in this session (work in progress; see DESIGN.md §5 for the planned monitor)"
 
 
